@@ -18,7 +18,7 @@ use std::io::Write;
 pub const META_C16: Meta = Meta {
     id: "C16",
     level: "exploration",
-    rule: "Exhaustive: every list of 1-3 elements over codings {gzip, identity, *, br, deflate, x-gzip} (thorough: also every list of 4 elements over {gzip, identity, *, br}) x weights {none, 0, 0., 0.0, 0.000, 0.001, 0.009, 0.01, 0.05, 0.1, 0.5, 0.999, 1, 1., 1.000} (one-, two- and three-decimal spellings whose order a scaling error would change), rendered with a rotating set of optional-whitespace patterns around ',' and ';'; every pair of the 1001 qvalues for gzip vs identity (and adjacent pairs with *); absent and empty header; a deciding element after k in {0..100} irrelevant elements, with and without an earlier relevant element (position independence); proptest for lists of up to 40 elements and random whitespace; arbitrary HeaderValue bytes for the no-panic clause. Oracle: independent evaluator in thousandths (gzip's quality else *'s else unacceptable; identity's else *'s else least-preferred acceptable; gzip > 0 and gzip >= identity); a coding listed twice admits the answers of either occurrence. Non-trivial = at least two of {gzip, identity, *} occur, at least one with a weight; distinct by header value.",
+    rule: "Exhaustive: every list of 1-3 elements over codings {gzip, identity, *, br, deflate, x-gzip} (thorough: also every list of 4 elements over {gzip, identity, *, br}) x weights {none, 0, 0., 0.0, 0.000, 0.001, 0.009, 0.01, 0.05, 0.1, 0.5, 0.999, 1, 1., 1.000} (one-, two- and three-decimal spellings whose order a scaling error would change), rendered with a rotating set of optional-whitespace patterns around ',' and ';'; every pair of the 1001 qvalues for gzip vs identity (and adjacent pairs with *); absent and empty header; empty and whitespace-only list elements in every slot (ignored, RFC 7230 section 7); a deciding element after k in {0..100} irrelevant elements, with and without an earlier relevant element (position independence); proptest for lists of up to 40 elements and random whitespace; arbitrary HeaderValue bytes for the no-panic clause. Oracle: independent evaluator in thousandths (gzip's quality else *'s else unacceptable; identity's else *'s else least-preferred acceptable; gzip > 0 and gzip >= identity); a coding listed twice admits the answers of either occurrence. Non-trivial = at least two of {gzip, identity, *} occur, at least one with a weight; distinct by header value.",
     assumptions: &["codings and 'q' are lower case, as in the statement's domain", "a coding listed more than once: any answer consistent with one choice of occurrence is accepted"],
 };
 
@@ -108,7 +108,7 @@ pub fn reference(v: Option<&[u8]>) -> Option<Vec<bool>> {
         for el in s.split(',') {
             let el = el.trim_matches(is_ows);
             if el.is_empty() {
-                return None; // empty list elements: outside the generated grammar
+                continue; // RFC 7230 section 7: a recipient ignores empty list elements
             }
             let (coding, q) = match el.split_once(';') {
                 None => (el, 1000),
@@ -233,6 +233,17 @@ pub fn ae_strategy() -> BoxedStrategy<Option<Bs>> {
             let w: String = ws.into_iter().collect();
             Some(Bs::s(&s.replace(',', &format!("{w},{w}"))))
         }),
+        // empty and whitespace-only list elements (leading, trailing, doubled commas)
+        2 => (elems_strategy(4), vec((any::<u16>(), proptest::sample::select(&[",", ", ", " ,", ",\t,", " , , ", ",,"][..])), 1..=3)).prop_map(|(s, ins)| {
+            let mut parts: Vec<String> = s.split(',').map(|x| x.to_string()).collect();
+            for (at, what) in ins {
+                let i = (at as usize * (parts.len() + 1)) >> 16;
+                let i = i.min(parts.len());
+                // an element that is empty or only whitespace, placed between two commas
+                parts.insert(i, what.trim_matches(',').to_string());
+            }
+            Some(Bs::s(&parts.join(",")))
+        }),
         3 => reqgen::arbitrary_value().prop_map(Some),
         2 => (elems_strategy(3), any::<u16>(), reqgen::header_byte()).prop_map(|(s, at, b)| {
             let mut v = s.into_bytes();
@@ -330,6 +341,29 @@ pub fn run_c16(cx: &Cx) -> Acc {
                     list.push((last_c, last_w));
                     let v = Some(Bs::s(&render(&list, k + last_w)));
                     acc.run_case(cx, "long-lists", &v, |acc| check_c16(&v, acc));
+                }
+            }
+        }
+    }));
+    // Empty list elements (RFC 7230 section 7: ignored), bare and holding whitespace, in every slot of
+    // every list of 1-2 relevant elements.
+    let empties: Vec<&str> = vec!["", " ", "\t", "  "];
+    acc.merge(par_units(cx, "empty-elements", &empties, true, "every list of 1-2 elements over {gzip, identity, *} x 15 weights with an empty / blank element before, between or after", |cx, e, acc| {
+        let relevant: Vec<(usize, usize)> = (0..3).flat_map(|c| (0..WEIGHTS.len()).map(move |w| (c, w))).collect();
+        for a in &relevant {
+            let one = render(&[*a], 0);
+            for v in [format!("{e},{one}"), format!("{one},{e}"), format!("{e},{one},{e}"), format!("{one} ,{e}, ")] {
+                let v = Some(Bs::s(&v));
+                acc.run_case(cx, "empty-elements", &v, |acc| check_c16(&v, acc));
+            }
+            for b in &relevant {
+                if a.0 == b.0 {
+                    continue;
+                }
+                let (x, y) = (render(&[*a], 0), render(&[*b], 0));
+                for v in [format!("{x},{e},{y}"), format!("{e},{x},{y},{e}"), format!("{x}, {e} ,{y}")] {
+                    let v = Some(Bs::s(&v));
+                    acc.run_case(cx, "empty-elements", &v, |acc| check_c16(&v, acc));
                 }
             }
         }
